@@ -27,6 +27,16 @@ var replayDir = "/verif/replay"
 
 var replayTemplates = []*replayTemplate{
 	{
+		name: "req_stale_retry_timer.go.tmpl",
+		match: func(o *Obligation) bool {
+			return strings.HasPrefix(o.Name, "site:(*protocol/req.socket).send:before:call:AfterFunc#1")
+		},
+		run: func(g *Gen, o *Obligation, model map[string]string) (bool, string) {
+			// fixed history: send, pipe lost at 3/4 of the retry interval, watch the next two transmissions
+			return runReplay("protocol/req", "req_stale_retry_timer.go.tmpl", map[string]string{}, "TestZZReplayReqStaleRetryTimer")
+		},
+	},
+	{
 		name: "conn_close_during_handshake.go.tmpl",
 		match: func(o *Obligation) bool {
 			return strings.Contains(o.Name, "(*transport.conn).Close:")
